@@ -26,18 +26,18 @@ find = {
     "rules": [(r"std::pair<iterator, bool>\(([^;]*)\);", r"(find_result){\1};", 2)],
     "contract": r'''
 __CPROVER_requires(lg_size >= 1 && lg_size <= 27)
-__CPROVER_requires(key != 0)
 __CPROVER_requires(__CPROVER_is_fresh(entries, ((size_t)1 << lg_size) * sizeof(EN)))
 __CPROVER_requires(g_old == KEY(entries[g_i & (((uint32_t)1 << lg_size) - 1)]))
 __CPROVER_assigns(verif_exc)
 /* result designates a slot of the table */
+__CPROVER_ensures(verif_exc == 0 ==> __CPROVER_pointer_in_range_dfcc(entries, __CPROVER_return_value.first, entries + (((size_t)1 << lg_size) - 1)))
 __CPROVER_ensures(verif_exc == 0 ==> (__CPROVER_same_object(__CPROVER_return_value.first, entries)
    && __CPROVER_POINTER_OFFSET(__CPROVER_return_value.first) < ((size_t)1 << lg_size) * sizeof(EN)
    && __CPROVER_POINTER_OFFSET(__CPROVER_return_value.first) % sizeof(EN) == 0))
 /* found => slot holds the key ; not found => slot is empty (insertion point) */
 __CPROVER_ensures(verif_exc == 0 ==> (__CPROVER_return_value.second ? KEY(*__CPROVER_return_value.first) == key : KEY(*__CPROVER_return_value.first) == 0))
 /* the home slot is the first one probed: a key stored at its home slot, or an empty home slot, is reported */
-__CPROVER_ensures(KEY(entries[(uint32_t)key & (((uint32_t)1 << lg_size) - 1)]) == key ==> (verif_exc == 0 && __CPROVER_return_value.second))
+__CPROVER_ensures((key != 0 && KEY(entries[(uint32_t)key & (((uint32_t)1 << lg_size) - 1)]) == key) ==> (verif_exc == 0 && __CPROVER_return_value.second))
 __CPROVER_ensures(KEY(entries[(uint32_t)key & (((uint32_t)1 << lg_size) - 1)]) == 0 ==> (verif_exc == 0 && !__CPROVER_return_value.second
    && __CPROVER_return_value.first == &entries[(uint32_t)key & (((uint32_t)1 << lg_size) - 1)]))
 /* the table itself is never written */
